@@ -1,6 +1,6 @@
 From Coq Require Import ZArith List.
 From Coq Require Import Sorted.
-From PV Require Import Base.U64 C07.C07_Model C07.C07_Arith C07.C07_Lists C07.C07_SPSC_Model C07.C07_MPMC_Model C07.C07_Chan_Model C07.C07_Proofs.
+From PV Require Import Base.U64 C07.C07_Model C07.C07_Arith C07.C07_Lists C07.C07_SPSC_Model C07.C07_MPMC_Model C07.C07_Chan_Model C07.C07_Batch_Model C07.C07_Proofs.
 Import ListNotations.
 Local Open Scope Z_scope.
 
@@ -145,5 +145,45 @@ Theorem chan_no_lost_wakeup_sender :
 Proof. exact chan_no_lost_wakeup_send. Qed.
 Print Assumptions chan_no_lost_wakeup_sender.
 
-(* NOT proved in Coq (notes/C07.md "Partial"): C07_Chan_Proofs.batch_q_statement (batch queue). *)
-Definition batch_q_unproved : Prop := batch_q_statement.
+(* ===== batch MPMC ring queue (push_batch / pop_batch / push / pop, ordered publication): ANY number of participants,
+   any scripts (pop_batch counts >= 0), any schedule, every capacity 2^k, every start s >= 0, the index-wrap guard
+   (tail + capacity < 2^64) holding along the run (breach_nw). ===== *)
+
+(* bounded + no overwrite: the four frontiers are ordered, at most `capacity` indices are claimed and not released, and
+   every published, unreleased element sits intact in its slot *)
+Theorem batch_q_bounded :
+  forall c, cfg_ok c -> forall s scripts, 0 <= s -> s + c_cap c < W64 -> scripts_ok scripts ->
+  forall st, breach_nw c (batch_init s scripts) st ->
+  (s <= b_head st /\ b_head st <= b_rtail st /\ b_rtail st <= b_whead st /\ b_whead st <= b_tail st /\
+   b_tail st <= b_head st + c_cap c) /\
+  (forall j, b_head st <= j < b_whead st -> b_slot st (j mod c_cap c) = b_gval st j).
+Proof. intros c Hc s scripts H0 HW Hok st R. pose proof (breach_inv c Hc s scripts st H0 HW Hok R) as I. split; [apply (bv_ord c s st I) | apply (bv_data c s st I)]. Qed.
+Print Assumptions batch_q_bounded.
+
+(* no invention / right values: every completed pop returned exactly the values pushed under the indices it claimed,
+   every completed push has its values recorded under the indices it claimed (res_ok) *)
+Theorem batch_q_no_invention :
+  forall c, cfg_ok c -> forall s scripts, 0 <= s -> s + c_cap c < W64 -> scripts_ok scripts ->
+  forall st, breach_nw c (batch_init s scripts) st ->
+  forall p r, In r (t_res (b_thr st p)) -> res_ok s st r.
+Proof. intros c Hc s scripts H0 HW Hok st R. apply (bv_res c s st (breach_inv c Hc s scripts st H0 HW Hok R)). Qed.
+Print Assumptions batch_q_no_invention.
+
+(* at most once: the index intervals claimed by two different participants that are inside a push (resp. a pop) are disjoint *)
+Theorem batch_q_claims_disjoint :
+  forall c, cfg_ok c -> forall s scripts, 0 <= s -> s + c_cap c < W64 -> scripts_ok scripts ->
+  forall st, breach_nw c (batch_init s scripts) st ->
+  forall p q pc1 pc2 a k b l, p <> q -> t_pc (b_thr st p) = Some pc1 -> t_pc (b_thr st q) = Some pc2 ->
+  (wint pc1 = Some (a, k) -> wint pc2 = Some (b, l) -> a + k <= b \/ b + l <= a) /\
+  (rint pc1 = Some (a, k) -> rint pc2 = Some (b, l) -> a + k <= b \/ b + l <= a).
+Proof.
+  intros c Hc s scripts H0 HW Hok st R p q pc1 pc2 a k b l N E1 E2.
+  pose proof (breach_inv c Hc s scripts st H0 HW Hok R) as I.
+  split; intros H1 H2; [apply (bv_wdisj c s st I p q pc1 pc2 a k b l N E1 E2 H1 H2) | apply (bv_rdisj c s st I p q pc1 pc2 a k b l N E1 E2 H1 H2)].
+Qed.
+Print Assumptions batch_q_claims_disjoint.
+
+Theorem batch_e3_runs_are_runs :
+  forall c st0 st p f, breach c st0 st -> breach c st0 (fst (batch_e3step c st p f)).
+Proof. exact batch_e3step_reach. Qed.
+Print Assumptions batch_e3_runs_are_runs.
